@@ -41,8 +41,9 @@ def run_case(ctx, case, model=None):
     with fstree.scratch(ctx, "c19") as root:
         fstree.materialize(fstree.spec_from_json(case["before"]), root + "/t0")
         fstree.materialize(fstree.spec_from_json(case["after"]), root + "/t1")
-        snaps = [modelrec.snapshot(root + "/t0", paths, exclude_patterns=o["exclude_patterns"], lstrip_paths=o["lstrip_paths"],
-                                   follow_symlink_dirs=False),
+        # (the link may have been recorded from another path list than the one compared now)
+        snaps = [modelrec.snapshot(root + "/t0", o.get("link_paths") or paths, exclude_patterns=o["exclude_patterns"],
+                                   lstrip_paths=o["lstrip_paths"], follow_symlink_dirs=False),
                  modelrec.snapshot(root + "/t1", paths, exclude_patterns=o["exclude_patterns"], lstrip_paths=o["lstrip_paths"],
                                    follow_symlink_dirs=False)]
         mp, ma = modelrec.resolve(model, snaps)
@@ -57,7 +58,19 @@ def run_case(ctx, case, model=None):
                 except Exception as e:  # noqa
                     return None, None, {"err": "record:" + type(e).__name__}
             else:
-                return None, None, {"err": "record:" + str(mp.get("err") or ma.get("err"))}   # prefix collision ...: C10's business
+                err = str(ma.get("err") or mp.get("err"))
+                if "ok" in mp and err == "Prefix":
+                    # the specification refuses to record the CURRENT tree (two files under one name after prefix
+                    # stripping): match-products must fail the same way instead of comparing with one of them dropped
+                    link = Link(name="x", products=mp["ok"])
+                    try:
+                        with fstree.in_dir(root + "/t1"):
+                            res = rl.in_toto_match_products(link, paths=o["paths"], exclude_patterns=o["exclude_patterns"],
+                                                            lstrip_paths=o["lstrip_paths"])
+                        return "REFUSED", None, {"ok": [sorted(res[0]), sorted(res[1]), sorted(res[2])]}
+                    except Exception as e:  # noqa
+                        return "REFUSED", None, {"err": type(e).__name__}
+                return None, None, {"err": "record:" + err}   # the link's own recording is refused: C10's business
         else:
             P, A = mp["ok"], ma["ok"]
         hv = case.get("hash_variant")
@@ -107,6 +120,9 @@ def pinned_cases():
                              "pre_fail": {"artifacts": ["dir:no-such-dir"], "exclude_patterns": ["*.txt"], "lstrip_paths": None}}),
                        (t3, {"paths": ["dir:obj"], "exclude_patterns": ["*.o"], "lstrip_paths": None,
                              "pre_fail": {"artifacts": ["dir:no-such-dir"], "exclude_patterns": None, "lstrip_paths": ["ob"]}}),
+                       # a stripped name that equals an unstripped one, stripped file first: the recording is refused
+                       ({"build": d(**{"app.bin": f("built")}), "app.bin": f("src"), "lib": d(**{"x": f("1")})},
+                        {"paths": ["build", "app.bin"], "exclude_patterns": None, "lstrip_paths": ["build/"], "link_paths": ["build"]}),
                        (t1, {"paths": None, "exclude_patterns": None, "lstrip_paths": ["out/", "dist/"]}),
                        (t1, {"paths": ["out", "dist"], "exclude_patterns": None, "lstrip_paths": ["dist/", "out/"]}),
                        (t2, {"paths": None, "exclude_patterns": ["/build"], "lstrip_paths": None}),
@@ -118,7 +134,8 @@ def pinned_cases():
             if edit:
                 # change something deep inside: it must show up in exactly the right report
                 node = (after["out"][1]["dist"][1] if "out" in after else
-                        after["src"][1]["build"][1] if "src" in after else after["keep"][1])
+                        after["src"][1]["build"][1] if "src" in after else
+                        after["keep"][1] if "keep" in after else after["build"][1])
                 if edit == "edit":
                     k = sorted(k for k, v in node.items() if v[0] == "f")[0]
                     node[k] = ["f", node[k][1] + "!"]
@@ -182,8 +199,14 @@ def run(ctx):
     reqs, impl, kept = [], [], []
     rec_fail = 0
     rec_model = core.Model()
+    refused_bad = []
     for c in cases:
         P, A, out = run_case(ctx, c, rec_model)
+        if P == "REFUSED":
+            rec_fail += 1
+            if out != {"err": "PrefixError"}:
+                refused_bad.append((c, out))
+            continue
         if P is None:
             rec_fail += 1
             continue
@@ -202,12 +225,15 @@ def run(ctx):
     for i in mism[:5]:
         ctx.violation("match-products: implementation %r, model (= proved partition) %r" % (impl[i], ans[i]),
                       {"case": kept[i], "P": reqs[i][1]["P"], "A": reqs[i][1]["A"], "impl": impl[i], "model": ans[i]})
+    for c, out in refused_bad[:3]:
+        ctx.violation("match-products compared a tree whose recording the specification refuses (two files under one name "
+                      "after prefix stripping): got %r instead of PrefixError" % (out,), {"case": c, "refused": True})
     rt = roundtrip_stream(ctx)
     rt_bad = [r for r in rt if r["bad"]]
     for r in rt_bad[:3]:
         ctx.violation("match-products round trip: " + r["bad"], {"roundtrip": r})
     broken = ctx.broken_obligations()
-    if broken and not mism and not rt_bad:
+    if broken and not mism and not rt_bad and not refused_bad:
         ctx.violation("broken obligation(s): " + "; ".join(n for n, _ in broken),
                       {"broken": [{"name": n, "detail": d} for n, d in broken]}, no_input=True)
     nonempty = sum(1 for o in impl if "ok" in o and any(o["ok"]))
@@ -252,6 +278,12 @@ def replay(ctx, obj):
         return 1
     c = obj["replay"]["case"]
     P, A, out = run_case(ctx, c)
+    if obj["replay"].get("refused") or P == "REFUSED":
+        print("impl :", out, " (the specification refuses to record the current tree: PrefixError expected)")
+        if P == "REFUSED" and out != {"err": "PrefixError"}:
+            print("VIOLATION property=C19 replay=%s" % obj.get("rerun", "").split()[-1])
+            return 1
+        return 0
     model = core.Model()
     a = model.batch([("match_products", {"P": P, "A": A})])[0]
     if "ok" in a:
